@@ -206,6 +206,28 @@ Theorem C18_elgamal_program_tracked : forall q x ops,
 Proof. exact eg_program_tracked. Qed.
 Print Assumptions C18_elgamal_program_tracked.
 
+(* ---- Equal on keys: equal iff every component is equal ---- *)
+
+Theorem C18_pedersen_key_eq_iff : forall q a b,
+  ped_key_eqb q a b = true <->
+  lf_norm q (pk_g a) = lf_norm q (pk_g b) /\ lf_norm q (pk_h a) = lf_norm q (pk_h b).
+Proof. exact ped_key_eq_iff. Qed.
+Print Assumptions C18_pedersen_key_eq_iff.
+
+Theorem C18_pedersen_trapdoor_key_eq_iff : forall q a b,
+  ped_tkey_eqb q a b = true <->
+  lf_norm q (tk_g a) = lf_norm q (tk_g b) /\ (tk_lambda a mod q = tk_lambda b mod q)%Z.
+Proof. exact ped_tkey_eq_iff. Qed.
+Print Assumptions C18_pedersen_trapdoor_key_eq_iff.
+
+Theorem C18_intcom_key_eq_iff : forall a b, int_key_eqb a b = true <-> a = b.
+Proof. exact int_key_eq_iff. Qed.
+Print Assumptions C18_intcom_key_eq_iff.
+
+Theorem C18_intcom_trapdoor_key_eq_iff : forall a b, int_tkey_eqb a b = true <-> a = b.
+Proof. exact int_tkey_eq_iff. Qed.
+Print Assumptions C18_intcom_trapdoor_key_eq_iff.
+
 (* ---- keys extracted from transcripts (from the C19 theorems) ---- *)
 
 Theorem C18_extracted_keys_equal_iff_transcripts_equal :
